@@ -2,6 +2,7 @@ import IbexModel
 import Driver.Proto
 import Driver.OpsItv
 import Driver.OpsBox
+import Driver.OpsBwd
 open Ibex Ibex.Proto
 
 def dispatch (op : String) (ins outs : List String) : String :=
@@ -9,6 +10,9 @@ def dispatch (op : String) (ins outs : List String) : String :=
   | some r => r
   | none =>
   match Ibex.Driver.opsBox op ins outs with
+  | some r => r
+  | none =>
+  match Ibex.Driver.opsBwd op ins outs with
   | some r => r
   | none => "bad-op"
 
